@@ -255,6 +255,48 @@ structure ColDecl where
   nullable : Bool
   deriving Repr, DecidableEq
 
+/-! ### Column options of CREATE TABLE (src/binder/create_table.rs) -/
+
+/-- The column options the binder understands (`ColumnOption::{Null, NotNull, Unique{is_primary}}`). -/
+inductive ColOpt where
+  | null | notNull | unique | primaryKey
+  deriving Repr, DecidableEq
+
+/-- `impl From<&ColumnDef> for ColumnCatalog`: the options are folded in declaration order;
+`(is_nullable, is_primary)` start as `(true, false)`. -/
+def optStep (st : Bool × Bool) : ColOpt → Bool × Bool
+  | .null => (true, st.2)
+  | .notNull => (false, st.2)
+  | .unique => (st.1, false)
+  | .primaryKey => (st.1, true)
+
+def optFold (st : Bool × Bool) : List ColOpt → Bool × Bool
+  | [] => st
+  | o :: os => optFold (optStep st o) os
+
+/-- `ordered_pks_from_columns`: one entry per PRIMARY KEY option occurrence. -/
+def pkCount (opts : List ColOpt) : Nat := (opts.filter (· == .primaryKey)).length
+
+/-- The catalogued column of a one-key table: `bind_create_table` sets `set_nullable(false)` on
+the primary-key column after the fold; more than one PRIMARY KEY occurrence is rejected
+(`NotSupportedTSQL`). Result: `(is_nullable, is_primary)` or `none` (bind error). -/
+def catalogOf (opts : List ColOpt) : Option (Bool × Bool) :=
+  if pkCount opts > 1 then none
+  else
+    let st := optFold (true, false) opts
+    some (if pkCount opts == 1 then false else st.1, st.2)
+
+/-- The nullability the SQL text declares: the LAST of NULL / NOT NULL, if any. -/
+def lastNullability : List ColOpt → Option Bool
+  | [] => none
+  | o :: os =>
+    match lastNullability os with
+    | some b => some b
+    | none => match o with
+      | .null => some true
+      | .notNull => some false
+      | _ => none
+
 /-- `ArrayImpl::cast` on one value, as INSERT uses it: `Ok(v')` or `Err`. -/
 def castI (t : Ty) (v : IVal) : KOut IVal :=
   match v, t with
